@@ -10,6 +10,7 @@ committed end.
 the packer+writer harness (bound 1), every op boundary of the recorded I/O is
 rebuilt as a disk image and reopened.
 """
+import itertools
 import os
 
 from mc import battery, dbworld, env, fsparse, iolog, sched, schedx
@@ -38,6 +39,7 @@ HARNESSES = {
     'pack+undo': [PACK, U],
     'pack+writerxy+writer': [PACK, WXY, W1],
     'pack+storage-reader': [PACK, SR],
+    'pack+pack+pack': [PACK, PACK, PACK],
     'packnow+writer2': [PACKNOW, W2],
     'packnow+writer+storage-reader': [PACKNOW, W1, SR],
 }
@@ -122,6 +124,18 @@ def run_one(cfg, choices):
     sched.install_locks()
     iolog.READS[0] = True
     w = setup(cfg.get('kind', 'F'))
+    # the packer proper runs after the request was admitted: two threads
+    # inside it at once means a concurrent pack was not refused
+    orig_packer = w.storage.packer
+
+    def packer(storage, referencesf, stop, gc):
+        t = sched._me()
+        w.log('packer-enter', t.id if t else -1)
+        try:
+            return orig_packer(storage, referencesf, stop, gc)
+        finally:
+            w.log('packer-exit', t.id if t else -1)
+    w.storage.packer = packer
     w.snap0 = iolog.snapshot(w.dir)
     w.k0 = len(iolog.LOG.ops)
     w.revs0 = w.revisions()
@@ -191,12 +205,33 @@ def judge(cfg, S, w):
     packs = [e for e in w.events if e[0] in ('pack-done', 'pack-failed')]
     failed = [e for e in packs if e[0] == 'pack-failed']
     for e in failed:
-        if not (cfg['name'] == 'pack+pack' and e[2] == 'FileStorageError'
+        if not (cfg['name'].startswith('pack+pack')
+                and e[2] == 'FileStorageError'
                 and 'Already packing' in e[3]):
             viol.append(('failpack', '%s:%s' % (cfg['name'], e[2]),
                          dict(event=e)))
     if cfg['name'] == 'pack+pack' and len(failed) > 1:
         viol.append(('second', 'both-packs-refused', dict(events=packs)))
+    if cfg['name'].startswith('pack+pack'):
+        for e in failed:
+            if not (e[2] == 'FileStorageError' and 'Already packing' in e[3]):
+                continue
+        # while one pack is in progress every other request is refused: two
+        # packs whose executions overlap must not both go through
+        inside = 0
+        for e in w.events:
+            if e[0] == 'packer-enter':
+                inside += 1
+                if inside > 1:
+                    viol.append(('second', 'two-packs-ran-concurrently',
+                                 dict(events=[x for x in w.events
+                                              if x[0].startswith('pack')])))
+                    break
+            elif e[0] == 'packer-exit':
+                inside -= 1
+        if failed and len(failed) == len(packs):
+            viol.append(('second', 'every-pack-refused',
+                         dict(events=packs)))
     for e in w.events:
         if e[0] == 'undo-failed':
             viol.append(('error', 'undo:%s' % e[2], dict(event=e)))
